@@ -2,7 +2,7 @@
 //   S <base dir hex> <glob hex> <ci>   -> the pattern PathSelector::include_paths stores for this glob under this base dir:
 //                                          "OK <anchored regex hex> <prefix regex hex> <fixed prefix hex> <ci>" | "ERR"
 //   X <base dir hex> <glob hex> <ci>   -> the same for exclude_paths
-//   SM <base hex> <include glob hex|-> <exclude glob hex|-> <name glob hex|-> <path hex>..
+//   SM | SMI <base hex> <include glob hex|-> <exclude glob hex|-> <name glob hex|-> <path hex>..   (SMI: globs compiled with --ignore-case)
 //                                       -> per path "<matches_full_path><matches_dir>"
 use super::*;
 use crate::pattern::verif_pattern_test::{describe, opts, unhex};
@@ -35,16 +35,18 @@ fn verif_selector_driver() {
                     Err(_) => "ERR".to_string(),
                 }
             }
-            "SM" => {
+            "SM" | "SMI" => {
+                // SMI: the globs are compiled with --ignore-case, as GroupConfig::compile_pattern does
+                let o = opts(f[0] == "SMI");
                 let mut sel = PathSelector::new(Path::from(text(f[1])));
                 if f[2] != "-" {
-                    sel = sel.include_paths(vec![Pattern::glob(&text(f[2])).unwrap()]);
+                    sel = sel.include_paths(vec![Pattern::glob_with(&text(f[2]), &o).unwrap()]);
                 }
                 if f[3] != "-" {
-                    sel = sel.exclude_paths(vec![Pattern::glob(&text(f[3])).unwrap()]);
+                    sel = sel.exclude_paths(vec![Pattern::glob_with(&text(f[3]), &o).unwrap()]);
                 }
                 if f[4] != "-" {
-                    sel = sel.include_names(vec![Pattern::glob(&text(f[4])).unwrap()]);
+                    sel = sel.include_names(vec![Pattern::glob_with(&text(f[4]), &o).unwrap()]);
                 }
                 f[5..]
                     .iter()
